@@ -180,6 +180,25 @@ def instances(tier, rng):
                             if var.get("mode") == "node" and rng.random() < 0.7:
                                 r[rng.choice(["starts", "ends"])] = [rng.choice(u["nodes"])]
                         insts.append(r)
+    # node-weighted flow decomposition where part of the flow STARTS (ends) at an inner node: the planted flow plus a weighted
+    # suffix (prefix) of a planted route, with that node given as additional start (end) - the only way to decompose it
+    for u, cyc_ in C.spread([it for it in items if len(it[0]["nodes"]) >= 3], 40 if quick else 300):
+        cls = "MinFlowDecompCycles" if cyc_ else "MinFlowDecomp"
+        p = rng.choice(u["proutes"])
+        if len(p) < 3:
+            continue
+        i = rng.randrange(1, len(p) - 1)
+        w = rng.choice([1, 2])
+        for key, part in (("starts", p[i:]), ("ends", p[:i + 1])):
+            r = C.base(u, cls, "node")
+            r["wt"] = "int"
+            r["nw"] = [x + w * part.count(v) for v, x in zip(u["nodes"], u["nw"])]
+            r.pop("ew", None)
+            r[key] = [p[i]]
+            r["expect_solved"] = True
+            r["proutes"] = list(u["proutes"]) + [part]
+            r["pweights"] = list(u["pweights"]) + [w]
+            insts.append(r)
     # cyclic error models: a subset constraint that lists a ZERO-flow edge next to positive ones, at a fraction that is met
     # without it (2 edges at 1/2, 4 at 3/4): using the zero edge only costs error, so it must stay optional
     zc = [u for u in vlib.universe("cyc", 3, maxe=9, k=2, w=2, l=1, cap=6, zero=True) if 0 in u["ew"]]
